@@ -31,6 +31,10 @@ chk("C16", "cachesim", "exploration",
     "A tree of simulated chains that agree on a prefix of validators and then include the same depositors in different orders, all sharing PubkeyCache handles exactly as ProcessDeposit does (AddValidator(len(registry), pubkey) on the chain's handle), plus known-pair and beyond-next calls; after every call every live handle is audited against a per-handle list model (index->pubkey, pubkey->index, absent entries, handle identity on no-op vs conflict). Termination is decided structurally: unbounded recursion ends in a fatal stack overflow under a 2 MiB stack limit, attributed to the announced seed; a self-deadlock is the runtime's deadlock verdict.",
     "Trusts the list model. Pubkeys are synthetic 48-byte labels (no decompression). A pubkey already present at a LOWER index of the same history is not generated (ProcessDeposit treats it as a top-up and never calls AddValidator).",
     SIM + "seeded deposit-history search vs. per-handle list model; crash-attributed non-termination", "DESIGN.md section 6 C16")
+chk("C20", "poolsim", "exploration",
+    "Arrival histories at the pools as a faulty gossip layer produces them (duplicates, late re-delivery, reordering, equivocating voters, empty bitfields): single and aggregate attestations over a synthetic committee table, attester/proposer slashings, exits, sync messages and contributions, interleaved with Search (all filter combinations), All, Prune and Reset (forward, same, back, jump; pool used with and without a warm-up Reset). Oracle: relational model - no panic; every returned item is an accepted one, unaltered and matching the filter; exact duplicates absorbed without changing query results; conflicting second single vote reported; every accepted aggregate covered by the returned bitfields until a Prune covers it; pruned items never returned; sync three-slot window contents exact across +-1 rotations (observed through a build-time overlay export, /repo untouched).",
+    "Trusts the relational model. Signatures are unique labels (pools never verify). Bitfields whose length differs from the committee are not generated (not well-formed). After a Reset jump, overlapping window slots may be kept or cleared.",
+    SIM + "seeded arrival-history search with duplicate/late/reordered delivery vs. set/relation model", "DESIGN.md section 6 C20")
 
 pending = {
  "C01": "check not built yet (planned: chainsim + refspec); not claimed in this revision",
@@ -55,13 +59,14 @@ for pid in checks: pending.pop(pid, None)
 
 engines = [
  {"name": "cachesim", "path": "sim/cachesim", "serves_properties": ["C16"], "kind_free_text": "tree of deposit histories sharing real PubkeyCache handles vs. per-handle list model"},
+ {"name": "poolsim", "path": "sim/poolsim", "serves_properties": ["C20"], "kind_free_text": "operation pools fed by faulty arrival histories vs. set/relation model"},
  {"name": "fcsim", "path": "sim/fcsim", "serves_properties": ["C09", "C10", "C11"], "kind_free_text": "abstract block-tree histories on the real ProtoForkChoice/ProtoArray/ProtoVoteStore vs. naive GHOST + tree walk"},
 ]
 m = {
  "version": 1,
  "setup_cmd": "./setup.sh",
  "hooks": {
-  "guard": "none (no hook is committed to /repo; instrumentation, where needed, is injected at build time with `go build -overlay` generated from the current tree)",
+  "guard": "none in /repo: no hook is committed; files under /verif/sim/overlay are ADDED to zrnt packages at build time with `go build -overlay` (read-only exports / scheduling shims), the repository tree is never written",
   "enable": "checks build /verif/sim with `replace github.com/protolambda/zrnt => /repo` (plus -overlay for the schedule-controlled engines)",
   "baseline_off_cmd": "cd /repo && GOFLAGS=-mod=mod GOPROXY=off GOSUMDB=off go test -vet=off -count=1 ./...",
   "source_commits": [],
